@@ -23,6 +23,9 @@ EXTENDS SchemaValid, SchemaViews
 Range(seq) == {seq[i] : i \in 1..Len(seq)}
 
 FileOf(e) == IF e.op = "linked" THEN e.out.file ELSE e.file
+\* the keys to decide; a linked file with unresolvable imports is not compared with the generated descriptor, which
+\* resolves through Go types what no resolver can
+Want(e) == Range(e.want) \ (IF e.op = "linked" /\ ~e.allow THEN {} ELSE {"nsame"})
 
 \* filedesc.Builder is specified for descriptor protos as protoc writes them: references fully qualified, types and labels given
 AbsOrEmpty(s) == s = "" \/ IsAbsolute(s)
@@ -45,7 +48,7 @@ AcceptedExp(f, allow, want) ==
 Expect(e) ==
   CASE e.op \in {"file", "linked"} ->
          LET f == FileOf(e) IN
-         IF Defects(f, e.allow) = {} THEN AcceptedExp(f, e.allow, Range(e.want) \cup {"ok"}) ELSE [ok |-> FALSE]
+         IF Defects(f, e.allow) = {} THEN AcceptedExp(f, e.allow, Want(e) \cup {"ok"}) ELSE [ok |-> FALSE]
     [] e.op = "defaults" ->
          [ef |-> EditionDefaults(e.edition), bef |-> EditionDefaults(e.edition)]
     [] OTHER -> [unknown_op |-> TRUE]
@@ -72,8 +75,8 @@ Agree(e) ==
             ELSE IF Defects(f, e.allow) # {} THEN e.out.ok = FALSE
             ELSE IF mode = "mutant" THEN
                    (e.out.ok => /\ ("snap" \in DOMAIN e.out => ViewLaws(e.out.snap))
-                                /\ (CanonicalDefaults(f) => AgreeWith(e, AcceptedExp(f, e.allow, Range(e.want)))))
-            ELSE /\ AgreeWith(e, AcceptedExp(f, e.allow, Range(e.want) \cup {"ok"}))
+                                /\ (CanonicalDefaults(f) => AgreeWith(e, AcceptedExp(f, e.allow, Want(e)))))
+            ELSE /\ AgreeWith(e, AcceptedExp(f, e.allow, Want(e) \cup {"ok"}))
                  /\ ("snap" \in DOMAIN e.out => ViewLaws(e.out.snap))
     [] e.op = "fuzz" -> /\ "panic" \notin DOMAIN e.out
                         /\ \A k \in {"snap1", "snap2"} : k \in DOMAIN e.out => ViewLaws(e.out[k])
